@@ -73,3 +73,55 @@ fn c16_resources_equal_the_model() {
     assert!(cases >= 3000);
     assert!(mismatches.is_empty(), "{} of {} cases differ from the model; first: {}", mismatches.len(), cases, mismatches[0]);
 }
+
+/// OBL C16.witness.model_actions_and_scriptlets
+#[test]
+fn c16_actions_and_scriptlets_equal_the_model() {
+    // the same for rules with an action (`:style`, `:remove()`), procedural operators and scriptlets: scoped by at least one positive
+    // location (a rule with only negations is the recorded finding C16.rule.negation_only_action_rule_applies), optional negations,
+    // exceptions spelled identically (without the css-validation feature a procedural selector is kept as plain selector text: it then
+    // rides in hide_selectors, under the same scoping)
+    use adblock::resources::{MimeType, Resource, ResourceType};
+    use base64::{engine::Engine as _, prelude::BASE64_STANDARD};
+    let hosts: Vec<(&str, usize)> = vec![("example.com", 1), ("sub.example.com", 1), ("shop.co.uk", 2), ("beta.shop.co.uk", 2), ("news.org", 1), ("other.net", 1)];
+    let locs = ["example.com", "sub.example.com", "shop.*", "beta.shop.*", "news.org", "other.net"];
+    let bodies = [".x:style(color: red)", ".y:remove()", ".z:has-text(ad)", "+js(sc, a)", "+js(sc, b)", ".x:style(color: blue)"];
+    let mut seed = 777u64;
+    let mut next = move |n: usize| { seed = seed.wrapping_mul(6364136223846793005).wrapping_add(1442695040888963407); ((seed >> 33) as usize) % n };
+    let lists = if std::env::var("VF_TIER").as_deref() == Ok("thorough") { 5000 } else { 400 };
+    let mut mismatches: Vec<String> = vec![];
+    let mut cases = 0;
+    for _ in 0..lists {
+        let mut rules: Vec<(Vec<usize>, Vec<usize>, usize, bool)> = vec![];
+        for _ in 0..(1 + next(7)) {
+            let pos: Vec<usize> = (0..(1 + next(2))).map(|_| next(locs.len())).collect();
+            let unhide = next(4) == 0;
+            let neg: Vec<usize> = if unhide { vec![] } else { (0..next(2)).map(|_| next(locs.len())).collect() };
+            rules.push((pos, neg, next(bodies.len()), unhide));
+        }
+        let texts: Vec<String> = rules.iter().map(|(p, n, b, u)| {
+            let mut l: Vec<String> = p.iter().map(|i| locs[*i].to_string()).collect();
+            l.extend(n.iter().map(|i| format!("~{}", locs[*i])));
+            format!("{}{}{}", l.join(","), if *u { "#@#" } else { "##" }, bodies[*b])
+        }).collect();
+        let mut e = Engine::from_rules(&texts, ParseOptions::default());
+        e.use_resources([Resource { name: "sc.js".into(), aliases: vec![], kind: ResourceType::Mime(MimeType::ApplicationJavascript), content: BASE64_STANDARD.encode("function sc(x = '') {}"), dependencies: vec![], permission: Default::default() }]);
+        for (h, suffix_labels) in &hosts {
+            cases += 1;
+            let mut want: Vec<bool> = vec![false; bodies.len()];
+            for (b, w) in want.iter_mut().enumerate() {
+                let applies = rules.iter().any(|(p, n, rb, u)| !*u && *rb == b && p.iter().any(|i| covers(locs[*i], h, *suffix_labels)) && !n.iter().any(|i| covers(locs[*i], h, *suffix_labels)));
+                let excepted = rules.iter().any(|(p, _, rb, u)| *u && *rb == b && p.iter().any(|i| covers(locs[*i], h, *suffix_labels)))
+                    // a negation on ANY rule with this body is stored as an exception for that host
+                    || rules.iter().any(|(_, n, rb, u)| !*u && *rb == b && n.iter().any(|i| covers(locs[*i], h, *suffix_labels)));
+                *w = applies && !excepted;
+            }
+            let got = e.url_cosmetic_resources(&format!("https://{h}/"));
+            let has_proc = |needle: &str, arg: &str| got.procedural_actions.iter().any(|p| p.contains(needle) && p.contains(arg));
+            let got_v = vec![has_proc("\".x\"", "color: red"), has_proc("\".y\"", "remove"), has_proc("\".z\"", "has-text") || got.hide_selectors.contains(".z:has-text(ad)"), got.injected_script.contains("sc(\"a\")"), got.injected_script.contains("sc(\"b\")"), has_proc("\".x\"", "color: blue")];
+            if got_v != want { mismatches.push(format!("host={h} rules={texts:?}: want {want:?} (per body {bodies:?}), got {got_v:?}; procedural={:?} script={:?}", got.procedural_actions, got.injected_script)); }
+        }
+    }
+    assert!(cases >= 2400);
+    assert!(mismatches.is_empty(), "{} of {} cases differ from the model; first: {}", mismatches.len(), cases, mismatches[0]);
+}
